@@ -526,31 +526,46 @@ def enumerate_paths_safe(body, facts):
 
 
 def async_job(ctx, report, rule, facts, config):
-    prog = ctx.program(facts)
+    """The background job: owns what sender() handed out, runs every stage, then sends the state back exactly once."""
+    from . import semq as Q
+    from .semcov import LIFECYCLE_NAMES, sroot
+    from .sem import Evaluator, Policy
     d = facts.one(A.AD + "::dispatch")
-    jobs = facts.closures_of(d, False)
-    if len(jobs) != 1:
-        raise AnchorError("AsyncDispatcher::dispatch is expected to spawn exactly one closure, found %d" % len(jobs))
-    job = jobs[0]
-    report.touched(job, config)
-    bt = prog.bt(job)
-    sends = [bb for bb, t in job.normal_calls() if Callee(t["func"]).name == "send" and "mpsc::Sender" in Callee(t["func"]).path]
-    trs = [t for t in traversals(prog, job) if root(t.source, bt, facts.crate) == (("upvar", "inner"), ["stages"])]
-    ok = len(sends) == 1 and len(trs) == 1 and trs[0].full
-    detail = "%d send / %d stage loop(s)" % (len(sends), len(trs))
-    if ok:
-        # the loop's None arm dominates the send: all stages ran
-        ok = bt.cfg.dominates(trs[0].exit_bb, sends[0]) and bt.cfg.count(lambda x: x == sends[0]) == (1, 1)
-        a = bt.call_args(sends[0])
-        ok = ok and a[0] == ("upvar", "snd") and a[1] == ("upvar", "inner")
-        detail = "the state is sent back exactly once, after the full stage loop" if ok else "the state is sent back before every stage has run, or not exactly once"
-    report.ob(rule, "job/send-after-stages", ok, detail, site=job.loc(sends[0]) if sends else job.loc(), config=config)
-    # the job captures exactly what sender() returned
-    cr = prog.creation(job)
-    okc = False
-    if cr:
-        caps = dict(zip(cr[1][4], cr[1][3]))
-        bd = prog.bt(d)
-        okc = (root(caps.get("inner"), bd, facts.crate)[1] == ["#1"] and root(caps.get("snd"), bd, facts.crate)[1] == ["#0"]
-               and root(caps.get("inner"), bd, facts.crate)[0][0] == "call" and bd.callee(root(caps.get("inner"), bd, facts.crate)[0][1]).name == "sender")
-    report.ob(rule, "job/captures", okc, "job owns (snd, inner) = self.data.sender()" if okc else "the job does not own the state handed out by sender()", site=d.loc(), config=config)
+    report.touched(d, config)
+    snd = facts.one(A.AD_DATA + "::sender")
+    ev = Evaluator(facts, Policy(opaque_names=LIFECYCLE_NAMES))
+    rets = [e for e in ev.eval(d) if e.kind == "return"]
+    pr = []
+    cap = []
+    if not rets:
+        pr.append("no normal path")
+    for e in rets:
+        events = e.path.events
+        sc = [x for x in events if x[0] == "call" and x[2].key == snd.key]
+        if len(sc) != 1:
+            cap.append("self.data.sender() is called %d time(s)" % len(sc))
+            continue
+        pair = sc[0][4]
+        spawns = [i_ for i_, x in enumerate(events) if x[0] == "once" and x[2] == "spawn"]
+        if len(spawns) != 1:
+            pr.append("the job is spawned %d time(s)" % len(spawns))
+            continue
+        job = events[spawns[0] + 1:]
+        sends = [(i_, x) for i_, x in enumerate(job) if x[0] == "call" and x[2].name == "send" and "mpsc" in x[2].path]
+        loops = [(i_, x) for i_, x in enumerate(job) if x[0] == "loop" and x[1].source is not None and sroot(ev, x[1].source) == (pair, ["#1", "stages"])]
+        if len(sends) != 1 or len(loops) != 1:
+            pr.append("%d send / %d stage loop(s)" % (len(sends), len(loops)))
+            continue
+        L = loops[0][1][1]
+        if not Q.is_full(L) or L.kind == "while" or L.stages:
+            pr.append("the stage loop can stop early")
+        if not loops[0][0] < sends[0][0]:
+            pr.append("the state is sent back before every stage has run")
+        if Q.calls_in([x for _, x in loops], lambda c: c.name == "send" and "mpsc" in c.path, deep=True):
+            pr.append("the state is sent from inside the stage loop")
+        a = sends[0][1][3]
+        if not (sroot(ev, a[0]) == (pair, ["#0"]) and sroot(ev, a[1]) == (pair, ["#1"])):
+            cap.append("what is sent back is not the state handed out by sender(), through its sender")
+    report.ob(rule, "job/send-after-stages", not pr, "the state is sent back exactly once, after the full stage loop" if not pr else
+              "the state is sent back before every stage has run, or not exactly once: %s" % "; ".join(sorted(set(pr))), site=d.loc(), config=config)
+    report.ob(rule, "job/captures", not cap and bool(rets), "job owns (snd, inner) = self.data.sender()" if not cap else "the job does not own the state handed out by sender(): %s" % "; ".join(sorted(set(cap))), site=d.loc(), config=config)
